@@ -728,7 +728,8 @@ static int rtr_handle_cache_response_pdu(struct rtr_socket *rtr_socket, char *pd
 		if (rtr_socket->last_update != 0) {
 			RTR_DBG1("Resetting Socket.");
 
-			rtr_socket->last_update = 0;
+			// last_update is kept: the old records stay in place until the reload has
+			// succeeded and must still expire if it never does
 			rtr_socket->is_resetting = true;
 		}
 		rtr_socket->session_id = cr_pdu->session_id;
